@@ -386,10 +386,59 @@ func alphabet() []call {
 			f, err := sn.SniffFile(inputFile(i))
 			return fmt.Sprintf("%s/%v", f, err != nil)
 		}},
+		// graph operations on thread-private lists (the last nGraphCalls entries)
+		{"RemoveNodes(private list: two nodes, one of them a root)", func(i int) string {
+			nl := privateList(i)
+			nl.RemoveNodes([]string{fmt.Sprintf("t%d-n1", i), fmt.Sprintf("t%d-n3", i)})
+			return listKey(nl)
+		}},
+		{"Union + Intersect(private lists)", func(i int) string {
+			a, b := privateList(i), privateList(i+10)
+			u := a.Union(b)
+			return listKey(u) + " | " + listKey(u.Intersect(a))
+		}},
+		{"Add + NodeGraph + Copy(private list)", func(i int) string {
+			a, b := privateList(i), privateList(i+10)
+			a.Add(b)
+			return listKey(a.NodeGraph(fmt.Sprintf("t%d-n0", i))) + " | " + listKey(a.Copy())
+		}},
 	}
 }
 
 const nFileCalls = 4
+
+// nGraphCalls: the last entries of the alphabet - graph operations on lists that belong to the calling thread alone
+// (the model package is inside the sync seam: package-level state it may keep - a pool, a cache behind a lock - is
+// owned by the scheduler)
+const nGraphCalls = 3
+
+func privateList(i int) *sbom.NodeList {
+	nl := &sbom.NodeList{}
+	for k := 0; k < 6; k++ {
+		id := fmt.Sprintf("t%d-n%d", i, k)
+		nl.Nodes = append(nl.Nodes, &sbom.Node{Id: id, Name: id})
+		if k > 0 {
+			nl.Edges = append(nl.Edges, &sbom.Edge{From: fmt.Sprintf("t%d-n%d", i, k-1), Type: sbom.Edge_contains, To: []string{id}})
+		}
+	}
+	nl.RootElements = []string{fmt.Sprintf("t%d-n0", i), fmt.Sprintf("t%d-n3", i)}
+	return nl
+}
+
+func listKey(nl *sbom.NodeList) string {
+	if nl == nil {
+		return "<nil>"
+	}
+	var ids []string
+	for _, n := range nl.Nodes {
+		ids = append(ids, n.Id)
+	}
+	ne := 0
+	for _, e := range nl.Edges {
+		ne += len(e.To)
+	}
+	return fmt.Sprintf("nodes=%s edges=%d roots=%s", strings.Join(ids, ","), ne, strings.Join(nl.RootElements, ","))
+}
 
 func scratchDir() string {
 	d := filepath.Join(os.Getenv("MCVERIF_SCRATCH"), fmt.Sprintf("c17-files-%d", os.Getpid()))
@@ -538,7 +587,8 @@ func Run(c *engine.Ctx) {
 	_ = sched.NewRaceReports()
 
 	// the generic groups range over the calls in front of the file calls
-	nGen := len(al) - nFileCalls
+	nGen := len(al) - nFileCalls - nGraphCalls
+	fileEnd := len(al) - nGraphCalls
 	var scenarios []scenario
 	for a := 0; a < nGen; a++ {
 		for b := a; b < nGen; b++ {
@@ -579,8 +629,8 @@ func Run(c *engine.Ctx) {
 	// file system is the real one; what a call reports is a digest of the file it wrote, as found after the call.
 	{
 		var scf, scfp []scenario
-		for a := nGen; a < len(al); a++ {
-			for b := a; b < len(al); b++ {
+		for a := nGen; a < fileEnd; a++ {
+			for b := a; b < fileEnd; b++ {
 				scf = append(scf, scenario{calls: [][]int{{a}, {b}}})
 				if vpoint.Sites != 0 {
 					scfp = append(scfp, scenario{calls: [][]int{{a}, {b}}, points: true})
@@ -588,7 +638,7 @@ func Run(c *engine.Ctx) {
 			}
 		}
 		// next to a stream call of each kind
-		for a := nGen; a < len(al); a++ {
+		for a := nGen; a < fileEnd; a++ {
 			for b, k := range al[:nGen] {
 				if k.Name == "ParseStream(private)" || k.Name == "WriteStream(private, cdx15)" {
 					scf = append(scf, scenario{calls: [][]int{{a}, {b}}})
@@ -602,6 +652,24 @@ func Run(c *engine.Ctx) {
 		c.Bound("file-calls", fmt.Sprintf("%d two-thread scenarios over the %d file entry points (WriteFile to names that differ in the extension only / in the stem only, ParseFile, SniffFile; each with each and with a stream parse and a stream write): whole calls with <= 2 preemptions and, with the code-point seam, every function entry and loop iteration inside them with <= 1 preemption", len(scf)+len(scfp), nFileCalls))
 		runScenarios(c, al, scf, 2)
 		runScenarios(c, al, scfp, 1)
+	}
+
+	// graph operations on thread-private lists: every pair (a call with itself included), whole calls with <= 2
+	// preemptions and, with the code-point seam, every function entry and loop iteration inside them with <= 1
+	{
+		var scg, scgp []scenario
+		for a := fileEnd; a < len(al); a++ {
+			for b := a; b < len(al); b++ {
+				scg = append(scg, scenario{calls: [][]int{{a}, {b}}})
+				if vpoint.Sites != 0 {
+					scgp = append(scgp, scenario{calls: [][]int{{a}, {b}}, points: true})
+				}
+			}
+		}
+		c.Group("graph-calls")
+		c.Bound("graph-calls", fmt.Sprintf("%d two-thread scenarios over %d graph operations on thread-private node lists (RemoveNodes; Union + Intersect; Add + NodeGraph + Copy): whole calls with <= 2 preemptions and, with the code-point seam, every function entry and loop iteration inside them with <= 1 preemption", len(scg)+len(scgp), nGraphCalls))
+		runScenarios(c, al, scg, 2)
+		runScenarios(c, al, scgp, 1)
 	}
 
 	if !c.IsReplay() && !sharedFidelity(c, al) {
